@@ -209,13 +209,16 @@ def run(prop, tier, seed, replay=None):
                                "Python's data model (which dunder Python calls, in-place fallback) as fixed in RefsTable.pySpecFull",
                                "direct oracles harness/w_expr.py"])
     nontrivial = int(sum(stats_total.get(k, 0) for k in ("eval_cases", "iop_cases", "deps_cases", "pickle_cases",
-                                                          "mgrpickle_cases", "eq_pairs", "exprhash_cases", "print_cases")))
+                                                          "mgrpickle_cases", "eq_pairs", "exprhash_cases", "print_cases",
+                                                          "cloneload_cases")))      # iopseq / mgrstate / eqtyped count under iop / mgrpickle / eq
     v.coverage.update({
         "evaluations": int(stats_total.get("ops", 0)), "distinct_nontrivial": nontrivial,
         "rule": "generated expression cases (family %s): the fixed exhaustive part (every operator x operand-kind order x value "
                 "pairs, every builtin, every in-place operator in value and expression case, each class x slot) plus random "
                 "trees to depth 5 over ints, floats, bools, complex, numpy scalars; non-trivial = the case built a deferred "
-                "expression and reached its oracle" % family,
+                "expression and reached its oracle; further oracle-only kinds: sequences of in-place statements over inexact "
+                "float data (C04), managers pickled in every reachable state incl. frozen with events as follow-ups (C12), load / "
+                "copy_expr_from into diverged clone() / copy() managers (C11), keys compared by value and type inside tuples (C06)" % family,
         "samples": samples, "traces_validated_against_impl": nlines + mgr_lines + heap_lines,
         "tie_a_obligations": gen_total, "tie_a_discharged": gen_ok, "tie_a_notes": tie_notes,
         "correspondence_divergences": len(diffs) + len(mgr_diffs) + len(heap_diffs),
